@@ -215,6 +215,8 @@ func genIndex(t *rapid.T, tb *Table, name string, o Opts) Index {
 func genCheck(t *rapid.T, tb *Table, i int) Check {
 	c := pick(t, "chkcol", plainCols(tb))
 	expr := rapid.SampledFrom([]string{"%s <> 'bad'", "%s IS NULL OR %[1]s <> -7", "length(%s) < 1000", "%s <> ')'",
+		// starts and ends with a parenthesis without being one group
+		"(%s IS NULL) OR (%[1]s <> 'bad')",
 		// SQLite has no backslash escapes: a literal may end with one
 		"%s <> '\\'", "%s NOT LIKE 'a\\%%' ESCAPE '\\'"}).Draw(t, "chkexpr")
 	ck := Check{Expr: fmt.Sprintf(expr, qcol(c))}
